@@ -21,6 +21,8 @@ struct Lookup {
     call_event: u64,
     return_event: u64,
     result: Option<[u8; 4]>,
+    /// the lookup went through Socket::connect_by_name; the datagram sent afterwards carries this id
+    socket_marker: Option<u64>,
 }
 
 fn gen_name(i: usize) -> String {
@@ -153,6 +155,7 @@ impl E2Run for Dns {
                 let pci = Pci::new([net.clone()]);
                 m2.lock().unwrap().push(pci.mac_addresses().next().unwrap());
                 let log = l2.clone();
+                let recs_for_scripts = recs.clone();
                 let app = App::<0>::new(c + 1).script(move |ctx: Ctx| async move {
                     let dns = ctx.machine.protocol::<DnsClient>().unwrap();
                     for (round, gap) in script {
@@ -164,7 +167,37 @@ impl E2Run for Dns {
                             let dns = dns.clone();
                             let machine = ctx.machine.clone();
                             let log = log.clone();
+                            // without ARP a datagram socket can be connected to any address: some
+                            // lookups go through Socket::connect_by_name, and the address it resolved
+                            // is read off the datagram the socket sends afterwards
+                            // (a datagram for a loopback address never reaches the wire)
+                            let loopback = recs_for_scripts.iter().any(|(n, ip)| *n == name && ip[0] == 127);
+                            let via_socket = !with_arp && !loopback && sim::chance(1, 4);
                             pending.push(elvis_core::verif::tokio::spawn(async move {
+                                if via_socket {
+                                    use elvis_core::protocols::socket_api::socket::{ProtocolFamily, SocketType};
+                                    sim::count("probe_lookup_through_connect_by_name");
+                                    let api = machine.protocol::<SocketAPI>().unwrap();
+                                    let Ok(mut sock) = api.new_socket(ProtocolFamily::INET, SocketType::Datagram, machine.clone()).await else {
+                                        return;
+                                    };
+                                    let marker = (0xD5u64 << 56) | ((c as u64) << 32) | sim::next_event();
+                                    let call_event = sim::next_event();
+                                    let ok = sock.connect_by_name(name.clone(), 4000).await.is_ok();
+                                    let return_event = sim::next_event();
+                                    if ok {
+                                        let _ = sock.send(marked_payload(marker, 16));
+                                    }
+                                    log.lock().unwrap().push(Lookup {
+                                        client: c,
+                                        name,
+                                        call_event,
+                                        return_event,
+                                        result: None,
+                                        socket_marker: Some(marker),
+                                    });
+                                    return;
+                                }
                                 let call_event = sim::next_event();
                                 let r = dns.get_host_by_name(name.clone(), machine).await;
                                 let return_event = sim::next_event();
@@ -175,6 +208,7 @@ impl E2Run for Dns {
                                     call_event,
                                     return_event,
                                     result: r.ok().map(|ip| ip.to_bytes()),
+                                    socket_marker: None,
                                 });
                             }));
                         }
@@ -217,10 +251,20 @@ impl E2Run for Dns {
             ));
             return out;
         }
-        let lookups = lookups.lock().unwrap().clone();
+        let mut lookups = lookups.lock().unwrap().clone();
         let records = records.lock().unwrap().clone();
         let macs = macs.lock().unwrap().clone();
         let ipv4 = TypeId::of::<Ipv4>();
+        // what connect_by_name resolved is the destination of the datagram the socket sent
+        for l in lookups.iter_mut() {
+            if let Some(marker) = l.socket_marker {
+                l.result = state
+                    .frames
+                    .iter()
+                    .find(|f| f.protocol == ipv4 && f.bytes.len() >= 36 && f.bytes[9] == 17 && payload_id(&f.bytes[28..]) == Some(marker))
+                    .map(|f| [f.bytes[16], f.bytes[17], f.bytes[18], f.bytes[19]]);
+            }
+        }
         // every returned address is the registered one
         for l in &lookups {
             let want = records.get(&l.name).copied();
